@@ -457,7 +457,82 @@ func TestChkNorm(t *testing.T) {
 	})
 }
 
+// TestColdStart: every shard is a fresh process whose FIRST arithmetic call is a different function (the shard
+// number selects it): a table or constant that is initialised lazily by some OTHER function shows up here and
+// nowhere else. The first call's result is compared with the definition like any other.
+func TestColdStart(t *testing.T) {
+	r := ev.New(t, prop, "TestColdStart")
+	r.Rule("one fresh process per arithmetic function: the very first call of the process is invNTTToMont / ntt / pointwise product / montgomeryReduce / reduce32 / decompose+useHint / power2Round / polyChkNorm (by shard), compared with its definition; then the other functions; non-trivial = the first call of each process, distinct by function")
+	firsts := []string{"invntt", "ntt", "pointwise", "montgomery", "reduce32", "decompose", "power2round", "chknorm"}
+	first := firsts[r.Shard()%len(firsts)]
+	order := append([]string{first}, firsts...)
+	a := drawFixedPoly(r.Seed()*31 + uint64(r.Shard()))
+	b := drawFixedPoly(r.Seed()*37 + uint64(r.Shard()) + 5)
+	for n, f := range order {
+		var key, msg string
+		switch f {
+		case "invntt":
+			x := a
+			dilithium.VerifPolyReduce(&x)
+			ref := toRef(x[:])
+			inv := dilref.INTT(&ref)
+			dilithium.VerifInvNTTToMont(&x)
+			for i := range x {
+				if dilref.Mod(int64(x[i])) != dilref.Mod(inv[i]*((1<<32)%q)) {
+					key, msg = "coldstart/invntt", fmt.Sprintf("invNTTToMont as call #%d of the process: coefficient %d = %d, interpolation*2^32 gives %d", n, i, x[i], dilref.Mod(inv[i]*((1<<32)%q)))
+					break
+				}
+			}
+		case "ntt", "pointwise":
+			c := &polyCase{Kind: "product", A: a[:], B: b[:]}
+			key, msg = checkPoly(c)
+		case "montgomery":
+			c := &scalarCase{Func: "montgomeryReduce", A: int64(a[0]) * int64(b[1])}
+			key, msg = checkScalar(c)
+		case "reduce32":
+			c := &scalarCase{Func: "reduce32", A: int64(a[2]) * 200}
+			key, msg = checkScalar(c)
+		case "decompose":
+			for _, fn := range []string{"decompose", "useHint0", "useHint1", "hintLemma"} {
+				c := &scalarCase{Func: fn, A: dilref.Mod(int64(a[3])), B: 5}
+				if key, msg = checkScalar(c); key != "" {
+					break
+				}
+			}
+		case "power2round":
+			c := &scalarCase{Func: "power2Round", A: dilref.Mod(int64(a[4]))}
+			key, msg = checkScalar(c)
+		case "chknorm":
+			c := &polyCase{Kind: "chknorm", A: []int32(b[:]), Bnd: dilref.Gamma1 - dilref.Beta}
+			for i := range c.A {
+				c.A[i] %= 500000
+			}
+			key, msg = checkPoly(c)
+		}
+		r.Eval(1)
+		if n == 0 {
+			r.NonTrivial("first", f)
+			r.Sample(map[string]any{"first_call_of_the_process": f})
+		}
+		r.Check(t, key == "", "coldstart/"+key, map[string]any{"first_call": first, "failing_call": f, "position": n}, "first call of the process was %s; %s", first, msg)
+	}
+}
+
+func drawFixedPoly(seed uint64) (p [256]int32) {
+	x := seed | 1
+	for i := range p {
+		x ^= x << 13
+		x ^= x >> 7
+		x ^= x << 17
+		p[i] = int32(int64(x>>3)%(2*q-1) - (q - 1))
+	}
+	return
+}
+
 func init() {
+	ev.Register("TestColdStart", func(t *testing.T, r *ev.Recorder, raw json.RawMessage) {
+		t.Skip("a cold-start case is a property of a fresh process: re-run ./check C12 quick")
+	})
 	sc := func(t *testing.T, r *ev.Recorder, raw json.RawMessage) {
 		var c scalarCase
 		if err := json.Unmarshal(raw, &c); err != nil {
